@@ -36,6 +36,9 @@ def small_messages(rng, eng, n, maxlen=72):
                 out.append((c, fr, msg_text(im)))
         if len(out) >= n + 36:
             break
+    if len(out) < min(n, 20):
+        bad = [im for im in impl if not (im.startswith("R ok") and " ENC x" in im)]
+        raise core.MachineryError("the implementation could not build and encode the small messages the stream checks are made of: " + (bad[0][:300] if bad else "?"))
     return out
 
 
@@ -182,6 +185,8 @@ def check_C06(chk, tier, seed):
             im = im[:im.index(" ENC2DIFF ")]
         if im.startswith("R ok") and " ENC x" in im:
             big.append((c, bytes.fromhex(im[im.rindex(" ENC ") + 6:].split()[0]), msg_text(im)))
+        else:
+            chk.violation("a message of a few KiB ... 1 MiB could not be built and encoded (by encode_to and Codec::encode alike): " + short(im, 200), dict(case=c, impl=short(im, 400)))
     for (c, fr, obs) in big:
         scripts = ([], [4096] * (len(fr) // 4096 + 1), [1000, "p"] * (len(fr) // 1000 + 1), [16384] * (len(fr) // 16384 + 1), [len(fr) - 1, 1])
         for script in (scripts if len(fr) < 400000 else scripts[3:]):        # (the model's octet lists make a 1 MiB frame cost seconds per case)
@@ -507,6 +512,14 @@ def check_C08(chk, tier, seed):
             chk.corr_break("observation differs from the model", dict(case=short(c, 4000), impl=short(im, 2000), model=short(mo, 2000)))
         if i % max(1, len(sc) // 6) == 0:
             chk.sample(dict(case=c, impl=short(im, 200), P=ok))
+    # more than 4 GiB of requests over one connection (4100 requests of 1 MiB): whatever a connection counts, it does not run out
+    vol = core.run_sharded([eng.harness, "codec"], eng.prelude, ["SVBIG 4100 100000"], shards=1, timeout=900)[0]
+    chk.case("SVBIG 4100 100000", True)
+    chk.validated += 1
+    chk.count("volume:4GiB-on-one-connection")
+    f = dict(x.split("=", 1) for x in vol.split()[2:] if "=" in x) if vol.startswith("SVBIG closed") else {}
+    if not (f.get("calls") == "4100" and f.get("written") == str(4100 * 32)):
+        chk.violation("a connection carrying 4100 requests of 1 MiB (more than 2^32 octets in all) was not served to the end: " + short(vol, 300), dict(case="SVBIG 4100 100000", impl=short(vol, 400)))
     # on real sockets: a peer pipelines three requests whose answers are 512 KiB each, closes its sending direction at once and reads
     # only half a second later - the server sees the end of the stream while most of its answers still sit in its send queue; every
     # answer must still arrive complete (a close that discards what was written is not "written")
